@@ -137,7 +137,7 @@ def main() -> None:
              "kind_free_text": "Python conformance harness: exporter, recorder, edge replay on SyncInterpreter/Interpreter/pure API, random-walk trace recording"},
         ],
         "checks": checks,
-        "notes": "Genuine defects found by the machinery and repaired are listed as status=fixed in known_findings.json (fix: commits in /repo); status=known entries produce KNOWN-FINDING lines.",
+        "notes": "Genuine defects found by the machinery and repaired are listed as status=fixed in known_findings.json (fix: commits in /repo); status=known entries produce KNOWN-FINDING lines. The thorough tier runs under a time budget (VERIF_BUDGET_S seconds, default 1200, 0 = none): work units not started when it is spent are not run and are counted in the evidence (units_not_run_time_budget); running units finish, so a thorough run ends some minutes after the budget.",
         "not_applicable": na,
     }
     with open(os.path.join(ROOT, "MANIFEST.json"), "w") as f:
